@@ -45,6 +45,25 @@ Section C11.
       find_pos Key (eid (get (de Key dk) v i)) v = Some i /\ nth_error v i = Some (get (de Key dk) v i).
   Proof. exact (handles_identify Key lt dk). Qed.
 
+  (* the two statements above, composed with reachability: in EVERY state that any finite
+     sequence of interface calls can produce from the empty heap, top() is a minimum and
+     draining the heap yields its contents in non-decreasing order (no Inv hypothesis left) *)
+  Theorem C11_reachable_top_is_minimum :
+    forall (ops : list (op Key)) e t, run Key lt dk [] ops = Some (e :: t) ->
+      forall x, In x (e :: t) -> kle Key lt (ekey e) (ekey x) = true.
+  Proof. intros ops e t H. exact (C11_top_is_minimum (e :: t) e t (C11_invariant_reachable ops (e :: t) H) eq_refl). Qed.
+
+  Theorem C11_reachable_pop_all_sorted_perm :
+    forall (ops : list (op Key)) v, run Key lt dk [] ops = Some v ->
+      Permutation (map (strip Key) (pop_all_e Key lt dk (length v) v)) (map (strip Key) v) /\
+      StronglySorted (fun a b => kle Key lt a b = true) (map ekey (pop_all_e Key lt dk (length v) v)).
+  Proof. intros ops v H. exact (C11_pop_all_sorted_perm v (C11_invariant_reachable ops v H)). Qed.
+
+  Theorem C11_reachable_handles_identify :
+    forall (ops : list (op Key)) v, run Key lt dk [] ops = Some v -> forall i, i < length v ->
+      find_pos Key (eid (get (de Key dk) v i)) v = Some i /\ nth_error v i = Some (get (de Key dk) v i).
+  Proof. intros ops v H. exact (C11_handles_identify v (C11_invariant_reachable ops v H)). Qed.
+
   (* sort(list) returns a sorted permutation *)
   Theorem C11_sort_sorted_perm :
     forall l, Permutation (sort_keys Key lt dk l) l /\
@@ -78,6 +97,9 @@ Print Assumptions C11_top_is_minimum.
 Print Assumptions C11_pop_all_sorted_perm.
 Print Assumptions C11_handles_identify.
 Print Assumptions C11_sort_sorted_perm.
+Print Assumptions C11_reachable_top_is_minimum.
+Print Assumptions C11_reachable_pop_all_sorted_perm.
+Print Assumptions C11_reachable_handles_identify.
 Print Assumptions C11_size_tracks_contents.
 
 (* ---- the hypotheses are satisfiable: the three comparators the harness uses ---- *)
